@@ -53,6 +53,10 @@ def extract_handler(fn):
             if inspect.iscode(c) and c.co_name == g.name:
                 info["gen_code"] = c
         info["yields"] = [L(n) for n in ast.walk(g) if isinstance(n, ast.Yield)]
+    parents = {}
+    for n in ast.walk(tree):
+        for ch in ast.iter_child_nodes(n):
+            parents[ch] = n
     for n in ast.walk(tree):
         if isinstance(n, ast.If):
             t = ast.unparse(n.test)
@@ -62,6 +66,19 @@ def extract_handler(fn):
                 info["test"] = L(n)
                 info["atomic_test"] = True
                 info["lock"] = L(n)
+            if info["test"] == L(n):
+                # a lock test that only runs for some request shapes (nested under a condition on the request) does not
+                # protect the handler: a client can send the other shape.  The replay sends stream-steps without a body.
+                a = parents.get(n)
+                while a is not None and a is not tree:
+                    if isinstance(a, ast.If) and ({x.id for x in ast.walk(a.test) if isinstance(x, ast.Name)} & {"is_json", "content", "request"}):
+                        inside = set(id(x) for x in ast.walk(a))
+                        steps_outside = [c for c in _calls(tree, "run_step") if id(c) not in inside]
+                        if steps_outside:
+                            info["test_conditional_on_request"] = True     # some stepping code is not under that condition
+                    a = parents.get(a)
+    if info.get("test_conditional_on_request"):
+        info["test"], info["lock"], info["atomic_test"] = None, None, False
 
     def scan(stmts, ctx):
         for st in stmts:
